@@ -151,6 +151,32 @@ def rule_draw_order(ctx, crate, rule="R-DRAW-ORDER"):
         ctx.check(inloop and bound_ok, rule, "clear-loop", b.name, c.loc(),
                   "clear_line is inside a loop whose exit test slices to the previous row count",
                   "clear_line is %s" % ("not in a loop" if not inloop else "in a loop not bounded by the previous row count"), cfg)
+    # (1c) a frame with no lines always goes through the clearing phase: the reposition-only path (cursor moved up, nothing
+    #      cleared) is not reachable when `lines.is_empty()` holds — an empty frame (finish_and_clear) must wipe the old rows
+    clear_phase = set()
+    for c in clears:
+        clear_phase |= {c.bb} | {x for x in b.reach_after(c.bb) if c.bb in b.reach_after(x)}
+    commit_bbs0 = {i for i, j, s in commits}
+    err_edges = []          # error exits of `?` never reach the commit (also not through an inlined helper's return value)
+    for tc in b.calls(K.TRY_BRANCH):
+        e = K.try_edges(b, tc)
+        if e:
+            err_edges.append((e[0], e[2]))
+    noclear_entry = b.reach([0], avoid=clear_phase, avoid_edges=err_edges)
+    repos_only = [u for u in ups if u.bb in noclear_entry and (set(b.reach([u.bb], avoid=clear_phase, avoid_edges=err_edges)) & commit_bbs0)]
+    empties = [c for c in b.calls(r"std::vec::Vec::<T, A>::is_empty", r"core::slice::<impl \[T\]>::is_empty") if b.slice_args(c, [0], through_calls=False).has_field("lines")]
+    for k, u in enumerate(repos_only):
+        ok = False
+        for e in empties:
+            if e.dest["p"]:
+                continue
+            R_empty, _ = K.bool_reach(b, e.dest["l"], True)
+            if u.bb not in R_empty:
+                ok = True
+        ctx.check(ok, rule, "empty-frame-clears#%d" % k, b.name, u.loc(),
+                  "the reposition-only path (nothing cleared) cannot be taken when the frame has no lines",
+                  "a frame with no lines can take the reposition-only path: the rows of the previous frame are never cleared "
+                  "(finish_and_clear leaves the bar on screen and forgets it)", cfg)
     # (2) every paint call (write of a line) is preceded by a reposition: up_blocks dominate it collectively
     for c in writes:
         ok = c.bb not in entry_avoid
